@@ -30,7 +30,7 @@ CLAIMS = {
  'C09': dict(cat='other', ref='DESIGN 3 C09', technique='interval partition on the segment count for the emitter; abstract evaluation of the parser with guard-dominates-store rule; semantic comparison of the parser result (split offset by case analysis, refusal by assertion or copy length)',
    text='Path emission equals root?/prefix(n)/segments for every n in 1..=255 (cells), empty paths are refused; Path::new derives rootedness and segments as specified and the 4-byte assertion precedes every store.',
    note='str::split / starts_with are uninterpreted functions of the input; character alphabet not validated (not required).'),
- 'C16': dict(cat='other', ref='DESIGN 3 C16', technique='term identity between the abstractly evaluated constructors and the specification packing; guard-presence rule; no refusal beyond the specification',
+ 'C16': dict(cat='other', ref='DESIGN 3 C16', technique='abstract interpretation of the two constructors on a symbolic string (bytes, interpreted hexadecimal digits) compared with the specification packing field by field by the term decision procedure; refusals compared as conditions: every required one present, none beyond the specification',
    text='EISAName::new stores exactly swap_bytes of the specified 5/5/5/4/4/4/4-bit packing (term identity under valid-character ranges) and emits it as an integer constant; Uuid::new produces the 16 bytes of the mixed-endian map and emits them as a Buffer; all refusing assertions/unwraps (length, dashes, hex digits) are present on the only path to the value.',
    note='char::to_digit modelled by its std contract; ASCII input assumed for char/byte index agreement.'),
 
@@ -47,13 +47,13 @@ CLAIMS = {
  'C04': dict(cat='translation_validation', ref='DESIGN 3 C04', technique='translation-validation-style comparison of the emission shape of constructor(args) with a specification-derived layout; setter placement via symbolic receiver; rustc field offsets; setter effects; bit-packing side conditions under dominating refusals; constructor-to-field wiring',
    text='68 structures (all tables and entry types) are compared field by field - offset, width, little-endian, source parameter, constants, reserved values, derived values - with independently written layouts; 100+ setter-filled fields are located through the serialiser on a symbolic receiver; packed-struct offsets from rustc are compared with the specification for FADT (64 fields), GAS, the table header and the TCPA server table. Three recorded findings share two roots (GenericErrorData section type, RINTC affinity).',
    note='The oracle is my reading of the specifications (RIMT pinned to today\'s tree); validity of caller values is out of scope.'),
- 'C11': dict(cat='other', ref='DESIGN 3 C11', technique='effect summaries (write set + update term) of every builder by abstract interpretation vs bit table; enum discriminants vs specification values; contradiction rule',
+ 'C11': dict(cat='other', ref='DESIGN 3 C11', technique='effect summaries (write set + update term) of every builder by abstract interpretation vs bit table - on the state field, or on the emitted field when the state derives it at serialisation time; enum discriminants vs specification values; contradiction rule',
    text='Every by-value/&mut-self method of 18 builder-bearing types is summarised on a symbolic receiver: 48 options write exactly their own fields with the specification mask (|= commutes, so subsets/orders/repetitions follow), 60+ plain setters write exactly the field of their name, constructor-time options and serialisation-time flag helpers match, 165 enum variants carry the specification value, and no two options of one structure or the same constant into one field.',
    note='Bit tables are my reading of ACPI/TCG/CXL/RISC-V documents; pub fields can be written directly by callers.'),
  'C12': dict(cat='other', ref='DESIGN 3 C12', technique='store-index normal form on symbolic states vs row-major specification; constructor fill; emission order',
    text='HMAT: one store at i*len(targets)+j, I*T cells of 0xFFFF, row-major emission; SLIT: stores exactly at a+N*b and b+N*a, N*N cells of 10, emission in index order; no other writers. Last-value-wins then follows from Vec element-store semantics; the checksum clause is C01\'s.',
    note='Index arithmetic overflow is a C18 site.'),
- 'C13': dict(cat='proof', ref='DESIGN 3 C13', technique='interval-write summaries of every Sdt operation vs the byte-vector model; must-pass-through and guard-before-mutation ordering on the evaluation log; normal form of the resulting image; sink entry points; callers-of rule for private writers',
+ 'C13': dict(cat='proof', ref='DESIGN 3 C13', technique='interval-write summaries of every Sdt operation vs the byte-vector model; guard-before-mutation ordering on the evaluation log; image sums to zero with byte 9 written last; refusals compared as conditions; normal form of the resulting image; sink entry points; callers-of rule for private writers',
    text='All 14 public operations (typed variants expanded) have exactly the model\'s effective writes plus the checksum byte, end in the zero/sum/store sequence with nothing after it, and evaluate their bounds assertion before any mutation; only five primitives write the image; new lays out the standard header; len >= 36 is inductive.',
    note='Vec/slice primitives modelled per std contract; tables < 4 GiB.'),
  'C14': dict(cat='other', ref='DESIGN 3 C14', technique='purity/effect rules over the typed program; sink-use rule; sink-method agreement and raw-vs-serialised identity by abstract evaluation; generic decision of in-crate sink kinds (byte store / byte sum / byte counter / generic table)',
